@@ -72,6 +72,9 @@ def n_classes_of(w):
     return 2 if s[0] == 1 else int(s[0])
 
 
+REFUSED = "<refused>"
+
+
 def common(kind, spec, build, encoding=False, want_bulk=True):
     """builds twice under different global RNG states; returns (wrapper, per-sample labels)"""
     outs = []
@@ -99,14 +102,22 @@ def common(kind, spec, build, encoding=False, want_bulk=True):
         n = len(root)
         if len(w) != n:
             raise Violation(f"len-changed:{kind}", f"{len(w)} vs {n}")
-        per = [w.getitem_class(i) for i in range(n)]
+        per = []
+        for i in range(n):
+            try:
+                per.append(w.getitem_class(i))
+            except Exception:
+                if encoding and before[i] == -1:
+                    per.append(REFUSED)  # an encoder may refuse a sample without a label; it must not invent one (see _check_encoding)
+                else:
+                    raise
         bulk = None
         if want_bulk:
             try:
                 bulk = w.getall_class()
             except NotImplementedError:
                 bulk = None
-        per2 = [w.getitem_class(i) for i in range(n)]
+        per2 = [REFUSED if (encoding and per[i] is REFUSED) else w.getitem_class(i) for i in range(n)]
         if [w.getitem_x(i) for i in range(n)] != list(range(n)):
             raise Violation(f"x-changed:{kind}", "")
         if root.classes != before or root.storage() != before:
@@ -284,6 +295,18 @@ def check_pseudo_label(spec):
                 raise Violation("pseudo-label:topk-label-outside-topk", f"sample {i}: {l}")
     if exp is not None and lab != exp:
         raise Violation(f"pseudo-label:per-sample:{form}", f"{lab} vs {exp}")
+    if form == "threshold":
+        # the wrapper is re-configured after its bulk accessor was used (public attribute): bulk and per-sample labels keep agreeing, and
+        # follow the threshold that is set when they are asked for
+        thr2 = 0.999 if spec["thr"] < 0.5 else 0.0
+        w.threshold = thr2
+        per2 = [_as_int(w.getitem_class(i)) for i in range(n)]
+        bulk2 = _aslist(w.getall_class())
+        exp2 = [int(probs[i].argmax()) if probs[i].max() > thr2 else -1 for i in range(n)]
+        if per2 != exp2:
+            raise Violation("pseudo-label:per-sample-ignores-re-assigned-threshold", f"threshold {spec['thr']} -> {thr2}: {per2} expected {exp2}")
+        if bulk2 != per2:
+            raise Violation("bulk!=per-sample:KDPseudoLabelWrapper:after-re-assigning-threshold", f"getall_class()={bulk2} per-sample={per2}")
     return Case(nt, labels)
 
 
@@ -322,9 +345,16 @@ def _check_encoding(kind, w, enc, orig, C, smoothing):
     try:
         hard = _aslist(w.getall_class())
     except Exception as e:
-        raise Violation(f"bulk-raises:{kind}", repr(e)[:120])
+        if -1 not in orig:
+            raise Violation(f"bulk-raises:{kind}", repr(e)[:120])
     for i, (v, c) in enumerate(zip(enc, orig)):
         if c == -1:
+            # a sample without a label stays without one: the -1 marker comes back (or the encoder refuses the sample) - never a class
+            if v is REFUSED:
+                continue
+            t = torch.as_tensor(v).float().flatten()
+            if not (t.numel() >= 1 and bool((t == -1.0).all())):  # the marker as a number, a 0-d or a one-element tensor (or a row of -1)
+                raise Violation(f"unlabeled-sample-encoded-as-a-class:{kind}", f"sample {i} has label -1, encoded as {v.tolist() if torch.is_tensor(v) else v!r}"[:200])
             continue
         if C == 1:
             # binary scalar label
@@ -350,7 +380,7 @@ def _check_encoding(kind, w, enc, orig, C, smoothing):
         # strict argmax only where the on/off gap (1 - smoothing) is representable in float32; closer to 1 the encoding is a tie
         if 1 - smoothing > 1e-5 and C > 1 and int(v.argmax()) != c:
             raise Violation(f"encoding-argmax:{kind}", f"argmax {int(v.argmax())} for class {c}")
-        if hard[i] != c:
+        if hard is not None and hard[i] != c:
             raise Violation(f"bulk!=decoded-per-sample:{kind}", f"sample {i}: bulk {hard[i]}, per-sample argmax {c}")
 
 
@@ -392,6 +422,8 @@ def check_one_hot(spec):
     w, enc, root = common("OneHotWrapper", spec, lambda r: OneHotWrapper(r), encoding=True)
     _check_encoding("OneHotWrapper", w, enc, spec["classes"], spec["C"], 0.0)
     for v, c in zip(enc, spec["classes"]):
+        if c == -1:
+            continue  # judged by _check_encoding: refused, or the -1 marker
         if sorted(v.tolist()) != [0.0] * (spec["C"] - 1) + [1.0]:
             raise Violation("one-hot:not-one-hot", str(v.tolist()))
     return Case(nontrivial_layout(spec), [])
@@ -452,7 +484,7 @@ S_RANDCLS = L(st.fixed_dictionaries({"mode": st.sampled_from(["random", "randper
                                      "W": st.integers(0, 47), "seed": SEED}))
 S_SEMI = L(st.fixed_dictionaries({"p": st.one_of(st.sampled_from([0.0, 1.0, 0.5, 0.1]), st.floats(0, 1)), "seed": SEED}), internal=True)
 S_SMOOTH = L(st.fixed_dictionaries({"smoothing": st.one_of(st.sampled_from([0.0, 1.0, 0.1, 0.5]), st.floats(0, 1))}), unlabeled=True)
-S_ONEHOT = L(st.just({}))
+S_ONEHOT = L(st.just({}), unlabeled=True)
 
 
 def _seed_forms(fn):
